@@ -3,11 +3,13 @@
    Proofs/Undo2.v (lists of transactions, blocks), Proofs/Undo4.v (the invariants along chains, several blocks),
    Proofs/UndoRefuted.v (concrete evaluations), Proofs/NodeBasics.v; the node-level theorem "ledger = replay of the
    main chain" in Proofs/Replay1.v (ApplyBlockToState respects agreement), Replay2.v (ledgers), Replay3.v (the loops of
-   CheckReorgs on the ledger), Replay4.v (every delivery sequence), Replay5.v (premises reduced by stateless validation). *)
+   CheckReorgs on the ledger), Replay4.v (every delivery sequence), Replay5.v (premises reduced by stateless validation),
+   CodecBridge.v / CodecBridgeAlloc.v / CodecBridgeNode.v (the typing premise derived from the byte-level decoder). *)
 From Virel Require Import Lib.Config Lib.U64 Lib.AMap Gen.Params Model.Emission Model.Ledger Model.Node Spec.Chain
   Proofs.Emission Proofs.Conservation Proofs.Pointwise Proofs.StakedSum Proofs.NodeBasics Proofs.ForkChoice Proofs.ChainInv
   Proofs.Refine2 Proofs.Undo Proofs.Undo2 Proofs.Undo4 Proofs.UndoRefuted
   Proofs.Replay1 Proofs.Replay2 Proofs.Replay3 Proofs.Replay4 Proofs.Replay5 Proofs.Replay6 Proofs.ChainExamples.
+From Virel Require Model.Des Model.Codec Model.CodecBlock Spec.TxAbs Proofs.CodecBridge Proofs.CodecBridgeAlloc Proofs.CodecBridgeNode.
 Open Scope N_scope.
 
 Theorem C03_cfg_ok_mainnet : cfg_ok_emission cfg_mainnet = true. Proof. vm_compute. reflexivity. Qed.
@@ -276,8 +278,11 @@ Print Assumptions C03_reject_unchanged.
      genesis at height 0 with b_cd = b_diff, fewer than 2^64 - 1 deliveries (the chain-structure theorems of C10);
      Forall tx_c (b_txs g)                   the genesis block's own transactions are well formed (it has none);
      typed                                   every transaction of a stored block has uint64-typed amounts and the version
-                                             byte of its payload kind (facts about the codec: Props/C16-C18, Refine2W.v
-                                             shows that ApplyTxToState itself does not check the version byte);
+                                             byte of its payload kind (Refine2W.v shows that ApplyTxToState itself does not
+                                             check the version byte).  These are facts about the codec and they are DERIVED
+                                             from the byte-level decoder model: Transaction.Deserialize returns nothing else
+                                             (C13_decoded_tx_is_typed); C03_ledger_is_replay_decoded below has the premise
+                                             "is the abstraction of a decoder output" in their place;
      paths                                   along every chain of stored blocks from genesis the block hashes and the
                                              transaction ids are pairwise distinct (they key the delegate history; for real
                                              hashes this is the nonce rule) and the per-address counters cannot wrap
@@ -316,6 +321,48 @@ Theorem C03_ledger_is_replay_general : forall cfg genesis_addr team_key g n0 ops
     same_accounts (ldg n) lr /\ dlgs (ldg n) = dlgs lr /\ staked (ldg n) = staked lr.
 Proof. exact ledger_is_replay. Qed.
 Print Assumptions C03_ledger_is_replay_general.
+
+(* THE SAME WITH THE TYPING PREMISE DISCHARGED FROM THE CODEC.  [typed] is replaced by [decoded]: every transaction x of a
+   stored block other than genesis is the abstraction (TxAbs.abs_tx of Spec/TxAbs.v, under ANY numbering of transaction
+   ids, keys, addresses, names and any reading of the signature bytes: the seven functions quantified first) of a value t
+   that Transaction.Deserialize returned on some byte string bs in one of its two modes hv.  That is what a node fed by
+   Block.DeserializeFull holds (C03_decoded_block_feeds_premise).  The typing follows because the decoder returns nothing
+   else (Proofs/CodecBridge.v, Props/C13.v: C13_decoded_tx_is_typed); cfg_ok_burn = REGISTER_BURN < 2^64 (the third
+   conjunct of wf_tx; the C13_cfg_ok_burn theorems).  The genesis block is a constant of the program: its transactions keep their
+   own premise (it has none). *)
+Theorem C03_ledger_is_replay_decoded :
+  forall (txid_of key_id addr_id name_id : list N -> N) (sig_by : Model.Codec.tx -> N) (sig_msg : Model.Codec.tx -> bool)
+         (signer_invalid : list N -> bool) cfg genesis_addr team_key g n0 ops,
+  cfg_ok_emission cfg = true -> cfg_ok_feepos cfg = true -> CodecBridge.cfg_ok_burn cfg = true ->
+  node0 cfg genesis_addr g = Ok n0 -> b_height g = 0 -> b_cd g = b_diff g ->
+  N.of_nat (length ops) < two64 - 1 ->
+  let n := run cfg genesis_addr team_key n0 ops in
+  Forall (tx_c cfg) (b_txs g) ->
+  (forall h b, get_block n h = Some b -> h <> b_hash g ->
+     Forall (fun x => exists hv bs t,
+               Model.Des.result_of (Model.Des.run (Model.Codec.dec_tx cfg hv) bs) = Model.Des.ROk t /\
+               x = TxAbs.abs_tx txid_of key_id addr_id name_id sig_by sig_msg signer_invalid t) (b_txs b)) ->
+  (forall bs, up (b_hash g) (blocks n) (b_hash g) bs ->
+     NoDup (bkeys g ++ flat_map bkeys bs) /\ c0 g + bnouts bs < two64 /\ c0 g + bntx bs < two64) ->
+  exists lr, apply_chain cfg genesis_addr (ldg n0) (lbs n (mchain n)) = Ok lr /\
+    same_accounts (ldg n) lr /\ dlgs (ldg n) = dlgs lr /\ staked (ldg n) = staked lr.
+Proof. exact CodecBridgeNode.ledger_is_replay_decoded. Qed.
+Print Assumptions C03_ledger_is_replay_decoded.
+
+(* where [decoded] comes from: the transactions of a block returned by Block.DeserializeFull on ANY input are, one by
+   one, values Transaction.Deserialize returns on a byte string (their own length-prefixed slice), in the mode the block's
+   height prescribes (version byte from HARDFORK_V2_HEIGHT on) *)
+Theorem C03_decoded_block_feeds_premise :
+  forall (txid_of key_id addr_id name_id : list N -> N) (sig_by : Model.Codec.tx -> N) (sig_msg : Model.Codec.tx -> bool)
+         (signer_invalid : list N -> bool) cfg bs b txs,
+  Model.Des.result_of (Model.Des.run (Model.CodecBlock.dec_full_block cfg) bs) = Model.Des.ROk (b, txs) ->
+  Forall (fun x => exists sl t,
+            Model.Des.result_of (Model.Des.run
+              (Model.Codec.dec_tx cfg (hf_v2 cfg <=? Model.CodecBlock.hd_height (Model.CodecBlock.bl_header b))) sl) = Model.Des.ROk t /\
+            x = TxAbs.abs_tx txid_of key_id addr_id name_id sig_by sig_msg signer_invalid t)
+         (map (TxAbs.abs_tx txid_of key_id addr_id name_id sig_by sig_msg signer_invalid) txs).
+Proof. exact CodecBridgeAlloc.decoded_block_txs_decoded. Qed.
+Print Assumptions C03_decoded_block_feeds_premise.
 
 (* non-vacuity: every premise holds for the history of Proofs/ChainExamples.v that reorganises from G-A1-A2-A3 to the
    heavier chain G-B-D (three blocks disconnected, two connected); its final ledger is the replay of [B; D] *)
@@ -369,8 +416,11 @@ Proof. exact RInv_reorg. Qed.
 Print Assumptions C03_reorganisation_keeps_replay.
 
 (* REMAINING GAPS of the first sentence of C03:
-   - the premises [typed] and [paths] above are stated on the store, not derived (transaction ids and block hashes are
-     symbolic numbers in the model; the typing is a property of the decoder);
+   - the premise [paths] above is stated on the store, not derived (transaction ids and block hashes are symbolic
+     numbers in the model).  The premise [typed] IS derived from the byte-level decoder model (C03_ledger_is_replay_decoded,
+     C13_decoded_tx_is_typed); what stays a modelling step there is the abstraction itself: that the symbolic block the
+     node model stores is the abstraction of the decoded block under a numbering that is consistent with address
+     derivation and signature verification (Spec/TxAbs.v lists the conditions; the structural theorems need none);
    - the conclusion compares accounts as functions: the node's account index may hold all-zero records (left by the undo
      of the blocks of an abandoned branch) that a node which never saw that branch does not hold.  That difference is
      real in the model and invisible to every rule as long as fees are positive (it is exactly what C03_apply_respects_
